@@ -1513,9 +1513,27 @@ void ExpandLine(char const* TokNam, unsigned TokenNum, as_dynstr_t* p_str) {
     (void)ReplaceLineUnchecked(p_str, Token, TokNam, True);
 }
 
-void KillCtrl(char* Line) {
-    char* z;
-    char  Quote = '\0';
+void KillCtrl(as_dynstr_t* p_line) {
+    char * Line, *z;
+    char   Quote = '\0';
+    size_t TabCnt = 0;
+
+    /* every TAB may grow into eight blanks: make room first */
+
+    for (z = p_line->p_str; *z; z++) {
+        if (*z == Char_HT) {
+            TabCnt++;
+        }
+    }
+    if (TabCnt) {
+        size_t Needed = strlen(p_line->p_str) + 7 * TabCnt + 1;
+
+        if ((Needed > p_line->capacity)
+            && as_dynstr_realloc(p_line, as_dynstr_roundup_len(Needed))) {
+            return;
+        }
+    }
+    Line = p_line->p_str;
 
     if (*(z = Line) == '\0') {
         return;
